@@ -360,7 +360,7 @@ pub fn eval(c: &BCase) -> CaseResult {
                     if !expect {
                         return Err("ACCEPT".into());
                     }
-                    drive_p2p(s, &m, &net, seed, 120).map(Some)
+                    drive_p2p(s, &m, &net, seed, 220).map(Some)
                 }
                 Err(GgrsError::InvalidRequest { .. }) => {
                     if expect {
@@ -609,7 +609,7 @@ pub fn run_prop(ctx: &Ctx) -> PropReport {
     let d = dom.len() as u64;
     let seed = ctx.seed;
     let maxlen = ctx.tier.pick(3u32, 4u32);
-    let rule = "builder call sequences over small domains (num_players 0..=4, handles 0..=5, Local/Remote(a|b)/Spectator(a|b|c), fps {0,1,60}, window {0,1,8,16}, delay {0,2,16}, check distance {0,2,8,16}, max_frames_behind {0,1,59,60}, catchup {0,1,70}, desync {Off,On 0,On 3}, sparse) followed by start_p2p / start_synctest / start_spectator; every call's Ok/InvalidRequest must equal the reference predicate written from the rustdoc; every accepted configuration is run (P2P: together with complementary sessions for every other address, 120 ticks; SyncTest: 40 frames with the strict game; spectator: polled/advanced alone) without panic or unexpected error";
+    let rule = "builder call sequences over small domains (num_players 0..=4, handles 0..=5, Local/Remote(a|b)/Spectator(a|b|c), fps {0,1,60}, window {0,1,8,16}, delay {0,2,16}, check distance {0,2,8,16}, max_frames_behind {0,1,59,60}, catchup {0,1,70}, desync {Off,On 0,On 3}, sparse) followed by start_p2p / start_synctest / start_spectator; every call's Ok/InvalidRequest must equal the reference predicate written from the rustdoc; every accepted configuration is run (P2P: together with complementary sessions for every other address, 220 ticks - beyond the 128-slot input ring; SyncTest: 40 frames with the strict game; spectator: polled/advanced alone) without panic or unexpected error";
     for len in 0..=maxlen {
         let n = 3 * d.pow(len);
         let dom2 = dom.clone();
